@@ -417,6 +417,8 @@ H("C09", "gearsets", "c09_gearset_table_positions", tier="thorough", unwind=104,
 for n, t in ((46, "quick"), (45, "thorough"), (1, "quick")):
     H("C09", "gearsets", "c09_gearset_name_len%d" % n, tier=t, unwind=50, timeout=600, bounds="all ASCII gear-set names of length %d (the name field holds 46 bytes + terminator): write-side conversion keeps every byte" % n,
       encodes=["gearsets::convert_from_string", "binrw::NullString::from"], stubs=["core::str::validations::run_utf8_validation -> ASCII-only model"])
+H("C09", "gearsets", "c09_gearset_name_concrete46", unwind=50, timeout=300, bounds="one concrete 46-byte name (the longest the field holds): all 46 bytes kept; decided by constant propagation",
+  encodes=["gearsets::convert_from_string", "binrw::NullString::from"], stubs=["core::str::validations::run_utf8_validation -> ASCII-only model"])
 H("C09", "gearsets", "c09g_pipeline_witness", expect="witness-fail", bounds="assert(false) twin")
 
 # ================================================================================================
